@@ -788,3 +788,43 @@ def require_verdicts(res):
             bad.append(f'{target}: {msg.strip()[-200:] or "<no output: worker died>"}')
     if bad:
         raise HarnessError(f'{len(bad)} CrossHair worker(s) produced no verdict (crashed): ' + ' | '.join(bad[:3]))
+
+
+def two_phase(gm, refuted, replay, pct, prefix='S_', workers=8):
+    """Turn CrossHair 'refuted' verdicts into replayed findings.  Principle: lemmas are needed to DISCHARGE; for REFUTING
+    any model may propose candidates because every report is replayed on the real uncut code.
+
+    refuted: {condition name: (crosshair message, argument names)};  replay(name, args) -> None (property holds on the
+    real code) or a description.  Phase 1 replays CrossHair's own counterexample - including the input on which a cut
+    helper raised CutRangeError (operands left the lemma range; that is not a verdict).  Whatever does not reproduce is
+    searched again in phase 2 with the twin condition `<prefix><name>`, which runs the same code with the helpers in
+    SEARCH mode (exact real-valued reading of every idiom, no side conditions, nothing discharged), and the twin's
+    counterexample is replayed.  Returns {name: {'args','result','how','twin','secs','msg'}}; result None => nothing
+    reproduced (the obligation stays open)."""
+    from . import chrun
+    out = {}
+    need = []
+    for fn, (msg, argn) in refuted.items():
+        a = chrun.parse_counterexample(msg, argn)
+        if a is None and 'CutRangeError' not in msg:
+            raise HarnessError(f'cannot parse CrossHair counterexample: {msg}')
+        r = replay(fn, a) if a is not None else None
+        out[fn] = {'args': a, 'result': r, 'how': 'direct', 'twin': None, 'secs': 0.0, 'msg': msg}
+        if r is None:
+            out[fn]['how'] = 'cut-range' if 'CutRangeError' in msg else 'not-reproduced'
+            need.append(fn)
+    if need:
+        tres = chrun.run([f'{gm}.{prefix}{fn}' for fn in need], per_condition_timeout=pct, workers=workers)
+        require_verdicts(tres)
+        for fn in need:
+            tv, tmsg, tdt = tres[f'{gm}.{prefix}{fn}']
+            o = out[fn]
+            o['twin'], o['secs'] = tv, tdt
+            if tv == 'refuted':
+                a2 = chrun.parse_counterexample(tmsg, refuted[fn][1])
+                if a2 is None:
+                    raise HarnessError(f'cannot parse CrossHair counterexample: {tmsg}')
+                r = replay(fn, a2)
+                if r is not None:
+                    o.update(args=a2, result=r, how='search', msg=tmsg)
+    return out
